@@ -965,6 +965,11 @@ pub fn exec(line: &str, rec: &mut Recorder) {
             }
             None => rec.stat("skipped.unparsable-case"),
         },
+        Some(&"srv") => {
+            if e2e::exec_srv(&t, rec).is_none() {
+                rec.stat("skipped.unparsable-case");
+            }
+        }
         Some(&"b32") if t.len() == 2 => {
             if let Some(x) = unhex(t[1]) {
                 rec.case(line.to_string(), hex(&b32(&x)));
@@ -1396,7 +1401,315 @@ pub fn run(o: &Opts, rec: &mut Recorder) {
 }
 
 // ------------------------------------------------------------------ end to end (server proofs)
+//
+// An NSEC3-signed `InMemoryZoneHandler` behind a `Catalog` answers every query in/around the zone; the
+// NSEC3 records, SOA name, rcode and answers of each response are handed to `verify_nsec3` exactly as
+// `DnssecDnsHandle::verify_response` does (signatures are not re-checked here: C06/C07).  Completeness:
+// every negative or wildcard response must come back Secure.  Each response is also recorded as an
+// ordinary `v` case, so the model and the soundness oracle see the server's own proofs as well.
 mod e2e {
+    use std::sync::{Arc, Mutex};
+    use std::time::Duration;
+
+    use hickory_net::runtime::TokioTime;
+    use hickory_net::xfer::Protocol;
+    use hickory_net::NetError;
+    use hickory_proto::dnssec::crypto::Ed25519SigningKey;
+    use hickory_proto::dnssec::rdata::{DNSKEY, DS};
+    use hickory_proto::dnssec::{DigestType, DnssecSigner, SigningKey};
+    use hickory_proto::op::{Edns, Message};
+    use hickory_proto::rr::rdata::{CNAME, NS, SOA, TXT};
+    use hickory_proto::serialize::binary::{BinDecodable, BinEncodable, BinEncoder};
+    use hickory_server::dnssec::NxProofKind;
+    use hickory_server::server::{Request, RequestHandler, ResponseHandler, ResponseInfo};
+    use hickory_server::store::in_memory::InMemoryZoneHandler;
+    use hickory_server::zone_handler::{AxfrPolicy, Catalog, MessageResponse, ZoneType};
+
     use super::*;
-    pub fn run(_o: &Opts, _rec: &mut Recorder) {}
+
+    #[derive(Clone, Default)]
+    struct Capture(Arc<Mutex<Vec<u8>>>);
+
+    #[async_trait::async_trait]
+    impl ResponseHandler for Capture {
+        async fn send_response<'a>(
+            &mut self,
+            response: MessageResponse<
+                '_,
+                'a,
+                impl Iterator<Item = &'a Record> + Send + 'a,
+                impl Iterator<Item = &'a Record> + Send + 'a,
+                impl Iterator<Item = &'a Record> + Send + 'a,
+                impl Iterator<Item = &'a Record> + Send + 'a,
+            >,
+        ) -> Result<ResponseInfo, NetError> {
+            let mut buf = self.0.lock().unwrap();
+            buf.clear();
+            let mut encoder = BinEncoder::new(&mut buf);
+            encoder.set_max_size(u16::MAX);
+            Ok(response.destructive_emit(&mut encoder)?)
+        }
+    }
+
+    fn rdata_for(t: u16, apex: &Name) -> Option<RData> {
+        Some(match t {
+            T_A => RData::A(A::new(192, 0, 2, 1)),
+            T_TXT => RData::TXT(TXT::new(vec!["x".to_string()])),
+            T_NS => RData::NS(NS(Name::from_ascii("ns.elsewhere.").unwrap())),
+            T_CNAME => RData::CNAME(CNAME(Name::from_ascii("target.elsewhere.").unwrap())),
+            T_DS => RData::DNSSEC(DNSSECRData::DS(DS::new(1, Algorithm::ED25519, DigestType::SHA256, vec![7; 32]))),
+            _ => {
+                let _ = apex;
+                return None;
+            }
+        })
+    }
+
+    fn build(z: &ZoneSpec) -> Option<Catalog> {
+        let mut h = InMemoryZoneHandler::<hickory_net::runtime::TokioRuntimeProvider>::empty(
+            z.apex.clone(),
+            ZoneType::Primary,
+            AxfrPolicy::Deny,
+            Some(NxProofKind::Nsec3 {
+                algorithm: Nsec3HashAlgorithm::SHA1,
+                salt: z.salt.clone().into(),
+                iterations: z.iterations,
+                opt_out: z.opt_out,
+            }),
+        );
+        let soa = SOA::new(Name::from_ascii("ns.elsewhere.").unwrap(), Name::from_ascii("h.elsewhere.").unwrap(), 0, 3600, 300, 3600000, 300);
+        h.upsert_mut(Record::from_rdata(z.apex.clone(), 300, RData::SOA(soa)), 0);
+        h.upsert_mut(Record::from_rdata(z.apex.clone(), 300, RData::NS(NS(Name::from_ascii("ns.elsewhere.").unwrap()))), 0);
+        let apex = lbls(&z.apex);
+        for (n, ts) in &z.names {
+            if *n == apex {
+                continue;
+            }
+            for t in ts {
+                if let Some(rd) = rdata_for(*t, &z.apex) {
+                    h.upsert_mut(Record::from_rdata(name_of(n), 300, rd), 0);
+                }
+            }
+        }
+        let key = Ed25519SigningKey::from_pkcs8(&Ed25519SigningKey::generate_pkcs8().ok()?).ok()?;
+        let key: Box<dyn SigningKey> = Box::new(key);
+        let dnskey = DNSKEY::from_key(&key.to_public_key().ok()?);
+        h.add_zone_signing_key_mut(DnssecSigner::new(dnskey, key, z.apex.clone(), Duration::from_secs(86400))).ok()?;
+        h.secure_zone_mut().ok()?;
+        let mut catalog = Catalog::new();
+        catalog.upsert(z.apex.clone().into(), vec![Arc::new(h)]);
+        Some(catalog)
+    }
+
+    fn ask(rt: &tokio::runtime::Runtime, catalog: &Catalog, q: &Name, t: u16) -> Option<Message> {
+        let mut m = Message::query();
+        m.add_query(Query::new(q.clone(), RecordType::from(t)));
+        let mut edns = Edns::new();
+        edns.set_dnssec_ok(true);
+        edns.set_max_payload(4096);
+        m.set_edns(edns);
+        let bytes = m.to_bytes().ok()?;
+        let req = Request::from_bytes(bytes, ([127, 0, 0, 1], 5353).into(), Protocol::Tcp).ok()?;
+        let cap = Capture::default();
+        rt.block_on(catalog.handle_request::<_, TokioTime>(&req, cap.clone()));
+        let buf = cap.0.lock().unwrap().clone();
+        Message::from_bytes(&buf).ok()
+    }
+
+    pub fn run(o: &Opts, rec: &mut Recorder) {
+        let rt = tokio::runtime::Builder::new_current_thread().enable_all().build().unwrap();
+        let mut r = Rng::new(o.seed ^ 0xE2E);
+        let n_zones = o.n(6, 60);
+        let apex = Name::from_ascii("z.").unwrap();
+        let queries: Vec<Name> = std::iter::once(apex.clone()).chain(all_rel(3).iter().map(|n| name_of(&rel_name(&apex, n)))).collect();
+        for zi in 0..n_zones {
+            let mut z = gen_zone(&mut r);
+            z.apex = apex.clone();
+            // re-root the generated names under z.
+            let old: Vec<(Lbls, BTreeSet<u16>)> = z.names.iter().map(|(k, v)| (k.clone(), v.clone())).collect();
+            z.names.clear();
+            z.names.insert(lbls(&apex), apex_types());
+            for (n, ts) in old {
+                let depth = n.iter().take_while(|l| matches!(&l[..], b"a" | b"b" | b"*")).count().min(3);
+                if depth == 0 || ts.contains(&T_SOA) || ts.contains(&T_DNAME) {
+                    continue;
+                }
+                let mut m: Lbls = n[..depth].to_vec();
+                m.push(b"z".to_vec());
+                // RFC 4592 §4: no NS / DS / CNAME at wildcard names, nothing below a `*` label
+                let ts: BTreeSet<u16> = if m[0] == b"*" { [T_A].into_iter().collect() } else { ts };
+                if m[1..].iter().any(|l| l == b"*") {
+                    continue;
+                }
+                z.names.insert(m, ts);
+            }
+            if zi == 0 {
+                z.opt_out = false;
+            }
+            if zi == 1 {
+                z.opt_out = true;
+            }
+            let Some(catalog) = build(&z) else {
+                rec.stat("e2e.zone-build-failed");
+                continue;
+            };
+            rec.stat("e2e.zones");
+            for q in &queries {
+                for t in [T_A, T_DS, T_TXT] {
+                    check_one(rec, &rt, &catalog, &z, q, t);
+                }
+            }
+        }
+    }
+
+    /// `srv <apex> <optout> <iter> <salt> <n> {<name> <types>}*n <qname> <qtype>` — corpus / replay form
+    pub fn srv_line(z: &ZoneSpec, q: &Name, t: u16) -> String {
+        let mut s = format!("srv {} {} {} {} {}", name_tok(&z.apex), b(z.opt_out), z.iterations, hex(&z.salt), z.names.len());
+        for (n, ts) in &z.names {
+            s += &format!(" {} {}", name_tok(&name_of(n)), types_tok(&ts.iter().copied().collect::<Vec<_>>()));
+        }
+        s + &format!(" {} {}", name_tok(q), t)
+    }
+
+    pub fn exec_srv(t: &[&str], rec: &mut Recorder) -> Option<()> {
+        let apex = parse_name(t.get(1)?)?;
+        let opt_out = *t.get(2)? == "1";
+        let iterations: u16 = t.get(3)?.parse().ok()?;
+        let salt = unhex(t.get(4)?)?;
+        let n: usize = t.get(5)?.parse().ok()?;
+        let mut names = BTreeMap::new();
+        for i in 0..n {
+            let nm = parse_name(t.get(6 + 2 * i)?)?;
+            let ts: BTreeSet<u16> = if *t.get(7 + 2 * i)? == "-" { BTreeSet::new() } else { t[7 + 2 * i].split(',').map(|x| x.parse::<u16>().ok()).collect::<Option<_>>()? };
+            names.insert(lbls(&nm), ts);
+        }
+        let q = parse_name(t.get(6 + 2 * n)?)?;
+        let qt: u16 = t.get(7 + 2 * n)?.parse().ok()?;
+        let z = ZoneSpec { apex, names, salt, iterations, opt_out };
+        let rt = tokio::runtime::Builder::new_current_thread().enable_all().build().ok()?;
+        let catalog = build(&z)?;
+        check_one(rec, &rt, &catalog, &z, &q, qt);
+        Some(())
+    }
+
+    fn check_one(rec: &mut Recorder, rt: &tokio::runtime::Runtime, catalog: &Catalog, z: &ZoneSpec, q: &Name, t: u16) {
+        {
+                    let Some(resp) = ask(rt, catalog, q, t) else {
+                        rec.stat("e2e.no-response");
+                        return;
+                    };
+                    let nsec3s: Vec<RecIn> = resp
+                        .authorities
+                        .iter()
+                        .filter_map(|rr| match &rr.data {
+                            RData::DNSSEC(DNSSECRData::NSEC3(n)) => Some(RecIn {
+                                owner: rr.name.clone(),
+                                next: n.next_hashed_owner_name().to_vec(),
+                                opt_out: n.opt_out(),
+                                iterations: n.iterations(),
+                                salt: n.salt().to_vec(),
+                                types: {
+                                    let mut v: Vec<u16> = n.type_bit_maps().map(u16::from).collect();
+                                    v.sort();
+                                    v
+                                },
+                            }),
+                            _ => None,
+                        })
+                        .collect();
+                    let rcode: u16 = resp.metadata.response_code.into();
+                    if nsec3s.is_empty() {
+                        rec.stat(&format!("e2e.response-without-nsec3.rcode{rcode}.answers{}", resp.answers.len().min(1)));
+                        if resp.answers.is_empty() && (rcode == 0 || rcode == 3) && !resp.authorities.iter().any(|rr| rr.record_type() == RecordType::NS) {
+                            let idx = rec.case(format!("e2e {} {} {}", name_tok(q), t, describe_spec(&z)), "~".into());
+                            rec.impl_only += 1;
+                            rec.fail(idx, format!("server sent a negative response (rcode {rcode}) without any NSEC3 record"), "");
+                        }
+                        return;
+                    }
+                    let soa = resp.authorities.iter().find(|rr| rr.record_type() == RecordType::SOA).map(|rr| rr.name.clone());
+                    let wl = resp.answers.iter().find_map(|rr| match &rr.data {
+                        RData::DNSSEC(DNSSECRData::RRSIG(s)) => Some(s.input().num_labels),
+                        _ => None,
+                    });
+                    let c = Case { q: q.clone(), qtype: t, soa, rcode, wl, soft: 100, hard: 500, recs: nsec3s };
+                    // the real call shape: answers as sent by the server
+                    let datas: Vec<NSEC3> = c.recs.iter().map(|r| NSEC3::new(Nsec3HashAlgorithm::SHA1, r.opt_out, r.iterations, r.salt.clone(), r.next.clone(), r.types.iter().map(|t| RecordType::from(*t)))).collect();
+                    let pairs: Vec<(&Name, &NSEC3)> = c.recs.iter().map(|r| &r.owner).zip(datas.iter()).collect();
+                    let direct = verify_nsec3(&Query::new(q.clone(), RecordType::from(t)), c.soa.as_ref(), resp.metadata.response_code, &resp.answers, &pairs, 100, 500);
+                    let out = run_case(&c, rec, true, "e2e");
+                    rec.stat(&format!("e2e.server-proof.{}", proof_str(direct)));
+                    if proof_str(direct) != out.proof {
+                        if let Some(idx) = out.idx {
+                            rec.fail(idx, format!("verify_nsec3 on the server's answers ({}) differs from the case-line call ({})", proof_str(direct), out.proof), "");
+                        }
+                    }
+                    // referrals (NS in authority, no SOA) are not denial-of-existence responses
+                    let referral = c.soa.is_none() && resp.answers.is_empty();
+                    // positive answers that are not wildcard expansions need no denial proof: outside the
+                    // property (the server attaches QNAME's NSEC3 to them all the same; counted)
+                    let plain_positive = !resp.answers.is_empty() && wl.map(|k| k >= q.num_labels()).unwrap_or(true);
+                    if plain_positive {
+                        rec.stat(&format!("e2e.positive-answer-carrying-nsec3.{}", proof_str(direct)));
+                        return;
+                    }
+                    // what RFC 1034 §4.3.2 / 4592 say the zone answers, computed from the zone data
+                    let zone_view: Zone = spec_view(&z);
+                    let want = kind(&zone_view, &lbls(&z.apex), &lbls(q), t);
+                    let agrees = match want {
+                        Kind::NxDomain => rcode == 3,
+                        Kind::NoData | Kind::WildNoData => rcode == 0 && resp.answers.is_empty(),
+                        Kind::WildAnswer(_) => rcode == 0 && !resp.answers.is_empty(),
+                        Kind::Answer | Kind::Referral => true,
+                    };
+                    if !agrees {
+                        // the response itself is not the zone's answer (server lookup, C10): its proof
+                        // cannot be expected to verify
+                        rec.stat(&format!("e2e.server-response-contradicts-zone.want-{want:?}.rcode{rcode}"));
+                        return;
+                    }
+                    // opt-out zones: an empty non-terminal that exists only because of insecure delegations has
+                    // no NSEC3 (RFC 5155 §7.1); its NODATA cannot be proved Secure by anyone (erratum 3441)
+                    let ql = b32(&nsec3_hash(&z.salt, q, z.iterations));
+                    if z.opt_out && want == Kind::NoData && !c.recs.iter().any(|r| owner_label(r) == ql) {
+                        rec.stat("e2e.optout-ent-without-nsec3.not-provable");
+                        return;
+                    }
+                    if direct != Proof::Secure && !referral {
+                        // class from the input: NXDOMAIN answer to a DS query (the server leaves out the
+                        // record covering the wildcard at the closest encloser for QTYPE = DS)
+                        let class = if rcode == 3 && t == T_DS { "server-ds-nxdomain-proof-lacks-wildcard-cover" } else { "" };
+                        let _ = out.idx;
+                        rec.impl_only += 1;
+                        let idx = rec.case(srv_line(&z, q, t), "~".into());
+                        {
+                            rec.fail(
+                                idx,
+                                format!("completeness: the server's own NSEC3 proof for {} type {} (rcode {}, {} answers) is not accepted: {} — zone {}", q, t, rcode, resp.answers.len(), proof_str(direct), describe_spec(&z)),
+                                class,
+                            );
+                        }
+                    } else if referral {
+                        rec.stat("e2e.referral-with-nsec3");
+                    }
+        }
+    }
+
+    /// the zone data as a zone view (empty non-terminals added)
+    fn spec_view(z: &ZoneSpec) -> Zone {
+        let apex = lbls(&z.apex);
+        let mut v: Zone = z.names.clone();
+        for n in z.names.keys() {
+            let mut k = n.len();
+            while k > apex.len() + 1 {
+                k -= 1;
+                v.entry(suffix(n, k)).or_default();
+            }
+        }
+        v
+    }
+
+    fn describe_spec(z: &ZoneSpec) -> String {
+        format!("[optout={} iter={} salt={}] {}", z.opt_out, z.iterations, hex(&z.salt), describe(&z.names))
+    }
 }
